@@ -8,12 +8,10 @@ written by tools/gen_c12.py from the current /repo on every run (about 2 600 dis
 Each chunk of 200 rows is checked by `decide +kernel` in `Gen/C12RowsP*.lean`; the theorems below only assemble them and read
 off the clauses of `Spec.RWCover.rowOk`.
 
-Full-strength statement (NOT provable on the pinned tree, see the two witnesses at the end):
-    theorem rw_covers_db : ∀ r ∈ x86Table, rowOk r = true
-(Finding C12-F3, tbl/tbx register lists, is closed: /repo fix C05-7.)  Open finding C12-F1: the register-or-memory information is kept per instruction id and applied to every form, so RegMem is
-claimed for operands for which the database has no memory form (`kmovb r32, k`, `vmovd r32, xmm`, `vpslld x, x, x` operand 1 …).
-`rowOkPartial` excludes exactly that class (`regMemOk lenient`).  Open finding C12-F2: queries with the implicit operands omitted
-(`mul rcx`) index the per-position tables wrongly; the tables here contain the explicit forms only.
+All statements are full strength since the former findings are closed by repairs in /repo: C12-F3 (tbl/tbx register lists,
+fix C05-7), C12-F1 (register-or-memory information kept per instruction id: `query_rw_info` now keeps RegMem only if the form with
+that operand in memory validates, fix C12-7) and C12-F2 (queries given without their implicit operands: answered through the full
+form of the matching signature, fix C12-6).  The tables contain the explicit forms AND the forms with implicit operands omitted.
 -/
 import AsmjitVerif.Spec.RWCover
 import AsmjitVerif.Model.X86RW
@@ -49,9 +47,9 @@ theorem opsOk_pointwise (len m64 : Bool) : ∀ (ds : List DbOp) (is : List ImplO
     ANY or X86, eight registers per kind, `native_gp_size = 4` branch of the zero-extension logic) -/
 def x86Table : List Row := Gen.C12Rows.table ++ Gen.C12Rows32.table
 
-/-- every row of the regenerated x86 behaviour tables (64-bit and 32-bit mode) satisfies the monitor (class of finding C12-F1
-    excluded) -/
-theorem rw_covers_db_partial : ∀ r ∈ x86Table, rowOkPartial r = true := by
+/-- every row of the regenerated x86 behaviour tables (64-bit and 32-bit mode, explicit forms and forms with the implicit
+    operands omitted) satisfies the monitor -/
+theorem rw_covers_db : ∀ r ∈ x86Table, rowOk r = true := by
   intro r hr
   simp only [x86Table, List.mem_append] at hr
   rcases hr with h | h
@@ -78,8 +76,8 @@ theorem ternlog_dest_is_input_iff_nibbles_differ : ∀ imm, imm < 256 → ternlo
     too, and for general-purpose registers the reported byte masks contain the database's bit range -/
 theorem reported_access_covers_db : ∀ r ∈ x86Table, ∀ p ∈ (effDbOps r).zip r.implOps, p.1.kind ≠ 0 → accessOk p.1 p.2 = true := by
   intro r hr p hp hk
-  have h := rw_covers_db_partial r hr
-  simp only [rowOkPartial, rowOkWith, Bool.and_eq_true] at h
+  have h := rw_covers_db r hr
+  simp only [rowOk, rowOkWith, Bool.and_eq_true] at h
   have := (opsOk_pointwise _ _ _ _ h.1.1).2 p hp
   simp only [opOk] at this
   split at this
@@ -90,8 +88,8 @@ theorem reported_access_covers_db : ∀ r ∈ x86Table, ∀ p ∈ (effDbOps r).z
     8 bytes); an 8/16-bit destination claims no zero extension -/
 theorem gp_zero_extension_exact : ∀ r ∈ x86Table, ∀ p ∈ (effDbOps r).zip r.implOps, p.1.kind ≠ 0 → zextOk r.mode64 p.1 p.2 = true := by
   intro r hr p hp hk
-  have h := rw_covers_db_partial r hr
-  simp only [rowOkPartial, rowOkWith, Bool.and_eq_true] at h
+  have h := rw_covers_db r hr
+  simp only [rowOk, rowOkWith, Bool.and_eq_true] at h
   have := (opsOk_pointwise _ _ _ _ h.1.1).2 p hp
   simp only [opOk] at this
   split at this
@@ -101,42 +99,44 @@ theorem gp_zero_extension_exact : ∀ r ∈ x86Table, ∀ p ∈ (effDbOps r).zip
 /-- status flags: reported read ⊇ database R/X, reported written ⊇ database W/X/0/1/U -/
 theorem flags_cover_db : ∀ r ∈ x86Table, flagsOk r = true := by
   intro r hr
-  have h := rw_covers_db_partial r hr
-  simp only [rowOkPartial, rowOkWith, Bool.and_eq_true] at h
+  have h := rw_covers_db r hr
+  simp only [rowOk, rowOkWith, Bool.and_eq_true] at h
   exact h.1.2
 
 /-- a CPU that has the reported features has every extension the database requires for the form the assembler emitted -/
 theorem features_cover_db : ∀ r ∈ x86Table, r.featChecked = true → ∀ e ∈ r.dbExt, provides r e = true := by
   intro r hr hc e he
-  have h := rw_covers_db_partial r hr
-  simp only [rowOkPartial, rowOkWith, Bool.and_eq_true] at h
+  have h := rw_covers_db r hr
+  simp only [rowOk, rowOkWith, Bool.and_eq_true] at h
   have hf := h.2
   simp only [featOk, hc, Bool.not_true, Bool.false_or, List.all_eq_true] at hf
   exact hf e he
 
-/-- RegMem on operand i of a register-only form with rm_size s: the database has the same mnemonic with operand i in memory of
-    s bytes and all other operands and all accesses equal — whenever the database has a memory form at that position at all
-    (finding C12-F1 is the case where it has none) -/
-theorem rm_replaceable_partial : ∀ r ∈ x86Table, ∀ p ∈ (effDbOps r).zip r.implOps,
-    p.1.kind = 1 → p.1.rmChecked = true → hasBits p.2.flags fRegMem = true → p.1.memAlt ≠ [] →
-    p.2.rmSize = 0 ∨ p.2.rmSize ∈ p.1.memAlt := by
-  intro r hr p hp hk hc hf hne
-  have h := rw_covers_db_partial r hr
-  simp only [rowOkPartial, rowOkWith, Bool.and_eq_true] at h
+/-- RegMem on operand i of a register-only form with rm_size s: the database has the same mnemonic with operand i in memory,
+    all other operands and all accesses equal, and (unless no size is given, s = 0) one such form has s bytes -/
+theorem rm_replaceable : ∀ r ∈ x86Table, ∀ p ∈ (effDbOps r).zip r.implOps,
+    p.1.kind = 1 → p.1.rmChecked = true → hasBits p.2.flags fRegMem = true →
+    p.1.memAlt ≠ [] ∧ (p.2.rmSize = 0 ∨ p.2.rmSize ∈ p.1.memAlt) := by
+  intro r hr p hp hk hc hf
+  have h := rw_covers_db r hr
+  simp only [rowOk, rowOkWith, Bool.and_eq_true] at h
   have := (opsOk_pointwise _ _ _ _ h.1.1).2 p hp
   simp only [opOk, hk] at this
   simp only [Nat.reduceBEq, Bool.false_eq_true, ↓reduceIte, Bool.and_eq_true] at this
   have hrm := this.1.2
   simp only [regMemOk, hk, hc, hf, BEq.rfl, Bool.and_self, ↓reduceIte] at hrm
-  have : p.1.memAlt.isEmpty = false := by cases hm : p.1.memAlt with | nil => exact absurd hm hne | cons _ _ => rfl
-  simp only [this, Bool.false_eq_true, ↓reduceIte, Bool.or_eq_true, beq_iff_eq, List.contains_eq_mem, decide_eq_true_eq] at hrm
-  exact hrm
+  cases hm : p.1.memAlt with
+  | nil => simp [hm] at hrm
+  | cons a l =>
+    simp only [hm, List.isEmpty_cons, Bool.false_eq_true, ↓reduceIte, Bool.or_eq_true, beq_iff_eq, List.contains_eq_mem,
+      decide_eq_true_eq] at hrm
+    exact ⟨by simp, hrm⟩
 
 /-- x86 register runs of the database (`k, k+1`): lead count on the leader, `kConsecutive` on the followers -/
 theorem consecutive_reported : ∀ r ∈ x86Table, ∀ p ∈ (effDbOps r).zip r.implOps, p.1.kind ≠ 0 → runOk p.1 p.2 = true := by
   intro r hr p hp hk
-  have h := rw_covers_db_partial r hr
-  simp only [rowOkPartial, rowOkWith, Bool.and_eq_true] at h
+  have h := rw_covers_db r hr
+  simp only [rowOk, rowOkWith, Bool.and_eq_true] at h
   have := (opsOk_pointwise _ _ _ _ h.1.1).2 p hp
   simp only [opOk] at this
   split at this
@@ -147,8 +147,8 @@ theorem consecutive_reported : ∀ r ∈ x86Table, ∀ p ∈ (effDbOps r).zip r.
     operand, written ∪ zero-extended bytes contain it for written operands (beyond the GP clause of the property) -/
 theorem vector_masks_cover_db : ∀ r ∈ x86Table, ∀ p ∈ (effDbOps r).zip r.implOps, p.1.kind ≠ 0 → wideMaskOk p.1 p.2 = true := by
   intro r hr p hp hk
-  have h := rw_covers_db_partial r hr
-  simp only [rowOkPartial, rowOkWith, Bool.and_eq_true] at h
+  have h := rw_covers_db r hr
+  simp only [rowOk, rowOkWith, Bool.and_eq_true] at h
   have := (opsOk_pointwise _ _ _ _ h.1.1).2 p hp
   simp only [opOk] at this
   split at this
@@ -167,19 +167,19 @@ theorem a64_lists_reported : ∀ r ∈ Gen.C12A64.table, rowOk r = true :=
 theorem tables_regenerate : Gen.C12Tables.committed = Gen.C12TablesRegen.regenerated := by rfl
 
 
-/-! ### witnesses of the open findings (the full-strength monitor rejects what the real code answers) -/
+/-! ### what the monitor rejects: the answers the tree gave before the repairs C12-7 and C12-6 (non-vacuity of the clauses) -/
 
-/-- C12-F1: `kmovb r8d, k2` — operand 1 (`k2`) is reported RegMem with rm_size 1, the database has no `kmovb r32, m8` -/
-def f1Witness : Row :=
+/-- `kmovb r8d, k2` — operand 1 (`k2`) reported RegMem with rm_size 1 although the database has no `kmovb r32, m8` -/
+def regMemWithoutMemoryForm : Row :=
   ⟨true, [⟨1, true, 4, false, true, 0, 8, 8, 0, 0, true, [1]⟩, ⟨1, false, 8, true, false, 0, 8, 8, 0, 0, true, []⟩], 0, 0, false, [], [],
    [⟨0x16, 255, 1, 0, 0x0, 0x1, 0xfe⟩, ⟨0x5, 255, 1, 0, 0x1, 0x0, 0x0⟩], 0, 0, [], 0⟩
-theorem regmem_per_id_witness : rowOk f1Witness = false ∧ rowOkPartial f1Witness = true := by decide
+example : rowOk regMemWithoutMemoryForm = false := by decide
 
-/-- C12-F2: `mul rcx` (implicit rdx, rax omitted) — the only operand is read by the CPU; reported: written, physical id rdx -/
-def f2Witness : Row :=
+/-- `mul rcx` (implicit rdx, rax omitted) — the only operand is read by the CPU; reported: written, physical id rdx -/
+def shortFormIndexedAsFullForm : Row :=
   ⟨true, [⟨1, true, 8, true, false, 0, 64, 64, 0, 0, true, [8]⟩], 0, 0x30f, false, [], [],
    [⟨0x102, 2, 0, 0, 0x0, 0xff, 0x0⟩], 0, 0x30f, [], 0⟩
-theorem implicit_omitted_witness : rowOk f2Witness = false := by decide
+example : rowOk shortFormIndexedAsFullForm = false := by decide
 
 /-! ### non-vacuity: the tables are populated and contain rows of every kind the clauses talk about -/
 example : Gen.C12Rows.tableSize > 1000 := by decide
